@@ -26,6 +26,14 @@ fn main() {
         Some("worker") => driver::worker(&args[2..]),
         Some("replay") => driver::replay(&args[2..]),
         Some("selftest-determinism") => driver::selftest_determinism(&args[2..]),
+        Some("scenario") => {
+            // prints the generated scenario of one run seed (debugging aid)
+            let seed: u64 = args[3].parse().unwrap();
+            determinism_seam::reset(seed);
+            let (rep, sc) = cases::run_case(&args[2], seed);
+            println!("{}", serde_json::to_string(&serde_json::json!({"scenario": sc, "violations": rep.violations, "counters": rep.counters})).unwrap());
+            0
+        }
         Some("list") => {
             for p in cases::PROPS {
                 println!("{}", p.id);
